@@ -232,8 +232,9 @@ def nominal(call, rng):
         r1 = min(max(int(a[0]), 0), 5); r2 = min(max(int(a[1]), 0), 5); s = []
         if r1 != r2 and r1 * r2 == 0: s += cmd("CU")
         if r1 == 0 and r2 != 0:
-            q = rng.choice([0, 1, 2, 4, 8, 16]); s += qry("QE", "%d,%d" % (q, rng.choice([0, q])))
-            s += cmd("EM")
+            q = rng.choice([0, 1, 2, 4, 8, 16]); q2 = rng.choice([0, q]); s += qry("QE", "%d,%d" % (q, q2))
+            res = {16: 1, 8: 2, 4: 3, 2: 4, 1: 5, 0: 0}; old = res[q] if q else res[q2]
+            if old != r2: s += cmd("EM")          # the scale-setting EM is only sent when the scale in use differs
         return s + cmd("EM")
     if m == "steps": return qry("QS", "%d,%d" % (rng.randint(-5000, 5000), rng.randint(-5000, 5000)))
     if m == "clear_steps": return cmd("CS")
